@@ -13,14 +13,14 @@ import "iter"
 // zzPMapping is an IterableMapping without the Entries fast path.
 type zzPMapping struct{ d *Dict }
 
-func (m zzPMapping) String() string                        { return "zzPMapping" }
-func (m zzPMapping) Type() string                          { return "zzPMapping" }
-func (m zzPMapping) Freeze()                               {}
-func (m zzPMapping) Truth() Bool                           { return True }
-func (m zzPMapping) Hash() (uint32, error)                 { return 0, nil }
-func (m zzPMapping) Get(k Value) (Value, bool, error)      { return m.d.Get(k) }
-func (m zzPMapping) Iterate() Iterator                     { return m.d.Iterate() }
-func (m zzPMapping) Items() []Tuple                        { return m.d.Items() }
+func (m zzPMapping) String() string                   { return "zzPMapping" }
+func (m zzPMapping) Type() string                     { return "zzPMapping" }
+func (m zzPMapping) Freeze()                          {}
+func (m zzPMapping) Truth() Bool                      { return True }
+func (m zzPMapping) Hash() (uint32, error)            { return 0, nil }
+func (m zzPMapping) Get(k Value) (Value, bool, error) { return m.d.Get(k) }
+func (m zzPMapping) Iterate() Iterator                { return m.d.Iterate() }
+func (m zzPMapping) Items() []Tuple                   { return m.d.Items() }
 
 //verif:unwind 64
 func zzH06_pushIterators() {
